@@ -582,7 +582,7 @@ func judge(r *vlib.Run, mode string, trial int, tc *trialCfg, c *cache.Cache, s 
 }
 
 func body(r *vlib.Run) {
-	r.ForTrials("stream", r.N(400, 6000), func(trial int, rng *rand.Rand) {
+	r.ForTrials("stream", r.N(400, 20000), func(trial int, rng *rand.Rand) {
 		runTrial(r, "stream", trial, rng)
 	})
 }
